@@ -2413,6 +2413,17 @@ func Quota(w *load.World, c *core.Collector) {
 					}
 					if returnsQuota {
 						within = append(within, ssax.Edge{From: b, Succ: 1 - e})
+						// what is compared with the quota is what the collection would hold after
+						// the request: the points it has and the points the request brings
+						o := ssax.Prov(ifi.Cond)
+						switch {
+						case !o["field:PointCount"]:
+							c.Add("QUOTA", "points:check-counts-stored-and-new", core.Violation, w.At(ifi), "the comparison that refuses a request over quota does not involve the shards' point counts", props...)
+						case !o["param:points"]:
+							c.Add("QUOTA", "points:check-counts-stored-and-new", core.Violation, w.At(ifi), "the comparison that refuses a request over quota does not involve the number of points of the request: a collection below its quota accepts a batch of any size", props...)
+						default:
+							c.Add("QUOTA", "points:check-counts-stored-and-new", core.OK, w.At(ifi), "", props...)
+						}
 					}
 				}
 			}
